@@ -158,8 +158,9 @@ def run_case(case, ctx):
     # ---- updates ------------------------------------------------------------------------------------------
     pos = n
     for u, up in enumerate(case["updates"]):
-        batch = full.iloc[pos:pos + 3]
-        pos += 3
+        size_u = [3, 1, 2][(case["dseed"] + u) % 3]         # batches of one, two or three new observations
+        batch = full.iloc[pos:pos + size_u]
+        pos += size_u
         ok, _ = ctx.call("update:exception:" + spec[0], f.update, batch.copy(), update_params=up)
         if not ok:
             return
